@@ -99,6 +99,7 @@ type Frame struct {
 }
 
 type Exec struct {
+	assignLHS string
 	specDefs  map[string]*specDef
 	sliceOrig map[string]*sliceOrigin
 	prog        *Program
@@ -217,9 +218,10 @@ func (e *Exec) set(st *State, key string, v Term) {
 // sliceOrigin: a slice value obtained by a two-index slice expression shares its backing array with the slice it was
 // cut from; an append to it may overwrite elements of that slice (slices otherwise have value semantics here).
 type sliceOrigin struct {
-	base Term
-	lo   string
-	text string
+	base     Term
+	lo       string
+	text     string
+	baseText string // the expression the slice was cut from (type assertions and parentheses stripped)
 }
 
 func isAtom(s string) bool {
@@ -544,7 +546,14 @@ func (e *Exec) stmt(s ast.Stmt, st *State, fr *Frame) Flow {
 		}
 		return Flow{norm: st}
 	case *ast.AssignStmt:
+		// x = append(x[:i], ...): the variable the sub-slice was cut from is overwritten with the result (delete idiom)
+		saved := e.assignLHS
+		e.assignLHS = ""
+		if len(x.Lhs) == 1 && len(x.Rhs) == 1 && x.Tok == token.ASSIGN {
+			e.assignLHS = exprText(x.Lhs[0])
+		}
 		e.assignStmt(x, st, fr)
+		e.assignLHS = saved
 		return Flow{norm: st}
 	case *ast.IncDecStmt:
 		c := e.ctx(st, fr)
